@@ -30,6 +30,9 @@ Correspondence streams (each for EVERY class of the generated table):
   monitors-*   user monitors appended to obj._property_monitors['presentValue'] whose
                callbacks command the object again at other priorities (callbacks as data,
                bounded by budgets), all 20 classes, direct and APDU
+  resend-wireobj  the decoded WritePropertyRequest OBJECT handed to Application.indication,
+               the same object again whenever the command recurs, one Any shared by the
+               requests with the same value (few distinct commands, many repetitions)
   cov-e2e      SubscribeCOV (confirmed/unconfirmed, cancel, lifetime expiry) through the
                real ChangeOfValueServices interleaved with commands and clock movements
                on the binary classes with minimum times, two complete stacks per history
@@ -213,6 +216,13 @@ def exc_kind(e):
 
 # ---------------------------------------------------------------- the object under test, direct access
 
+class MonitorBoom(Exception):
+    """what a raising user monitor raises"""
+
+
+BOOM = "python:MonitorBoom"
+
+
 class Direct:
     """one real *CmdObject, driven through obj.WriteProperty / obj.ReadProperty"""
     kind = "direct"
@@ -235,20 +245,26 @@ class Direct:
     def install_rules(self, rules):
         """user monitors of presentValue, the documented way
         (obj._property_monitors['presentValue'].append(fn)); a callback is data:
-        [trigger code|None, priority|None, value code|None, budget] = "when told the value
+        [trigger code|None, priority|None, value code|None, budget(, raises)] = "when told the value
         became <trigger> (None: on any change) and firings are left, command <value> at
         <priority> on the same object from inside the callback"."""
         ci, obj = self.ci, self.obj
-        for k, (trg, prio, val, budget) in enumerate(rules):
+        for k, rule in enumerate(rules):
+            trg, prio, val, budget = rule[:4]
+            raises = len(rule) > 4 and bool(rule[4])
             self.left.append(budget)
 
-            def cb(old, new, k=k, trg=trg, prio=prio, val=val):
+            def cb(old, new, k=k, trg=trg, prio=prio, val=val, raises=raises):
                 if self.left[k] > 0 and (trg is None or code_of(ci, new) == trg):
                     self.left[k] -= 1
+                    if raises:
+                        raise MonitorBoom("user monitor %d" % k)
                     entry = [prio, val]
                     self.fired.append(entry)          # in the order the commands are ISSUED
                     try:
                         obj.WriteProperty("presentValue", pyval(ci, val, self.intern), priority=prio)
+                    except MonitorBoom:
+                        raise                         # raised by a monitor AFTER the slot was written
                     except Exception:
                         self.fired.remove(entry)      # a refused one does not count
                         raise
@@ -515,8 +531,16 @@ class Wire(Direct):
                 req.propertyValue.cast_in(v if not ci["meta"]["atomic"] else ci["dt"](v))
         except Exception as e:
             return "unencodable:" + type(e).__name__
-        err, r = self._roundtrip(req)
-        return err if err else self._outcome(r)
+        err, r = self._send_write(req, (prop, code, ai, pr))
+        out = err if err else self._outcome(r)
+        if out == "exec:device:operationalProblem" and any(len(x) > 4 and x[4] for x in (self.cfg.get("rules") or [])):
+            # Application.indication turns any other exception of the service into this
+            # error reply; the only one that can occur in these histories is the monitor's
+            out = BOOM
+        return out
+
+    def _send_write(self, req, key):
+        return self._roundtrip(req)
 
     def read(self):
         from bacpypes.apdu import ReadPropertyRequest, ReadPropertyACK, ComplexAckPDU
@@ -682,13 +706,51 @@ class E2E(Wire):
         return int(round((t.taskTime - BASE) * 1e6))
 
 
+class WireObj(Wire):
+    """APDU level without the octets: the decoded WritePropertyRequest OBJECT is handed to
+    Application.indication, and the same request object is handed in again whenever the
+    same command recurs; requests with the same value share one Any.  Every acknowledged
+    command must land however often its request object has been processed before."""
+    kind = "wireobj"
+
+    def __init__(self, cname, cfg, fast=False):
+        Wire.__init__(self, cname, cfg, fast)
+        self.kept = {}
+        self.anys = {}
+
+    def _send_write(self, req, key):
+        from bacpypes.pdu import Address
+        prop, code, ai, pr = key
+        if key in self.kept:
+            req = self.kept[key]
+        else:
+            if code in self.anys:
+                req.propertyValue = self.anys[code]
+            else:
+                self.anys[code] = req.propertyValue
+            self.kept[key] = req
+        self.invoke = (self.invoke + 1) % 256
+        req.apduInvokeID = self.invoke
+        req.pduSource = Address(5)
+        del self.below.down[:]
+        try:
+            self.app.indication(req)
+        except Exception as e:
+            k = exc_kind(e)
+            # the reject family is what ApplicationServiceAccessPoint turns into a Reject PDU
+            return (("invalidDatatype" if k in ("invalidDatatype", "invalidTag") else k), None)
+        if len(self.below.down) != 1:
+            return ("replies:%d" % len(self.below.down), None)
+        return (None, self.below.down[0])
+
+
 class E2ECov(E2E):
     kind = "e2ecov"
     fresh_stacks = True
 
 
 def make_target(kind, cname, cfg, fast=False):
-    return {"wire": Wire, "e2e": E2E, "e2ecov": E2ECov, "direct": Direct}[kind](cname, cfg, fast)
+    return {"wire": Wire, "wireobj": WireObj, "e2e": E2E, "e2ecov": E2ECov, "direct": Direct}[kind](cname, cfg, fast)
 
 
 # ---------------------------------------------------------------- the oracle (property on the real object)
@@ -753,7 +815,7 @@ class Oracle:
                     self.fail("refused-but-changed", "refused write (invalid value at %r) changed the object: "
                               "%r -> %r" % (idx, (ppv, pslots), (pv, slots)), idx=idx)
             elif prop in ("pv", "pa"):
-                if err is not None:
+                if err is not None and err != BOOM:
                     self.fail("good-command-refused", "command at priority %r raised %s" % (idx, err), idx=idx)
                 else:
                     self.last[idx] = code
@@ -1044,7 +1106,11 @@ def gen_rules(rng, ci, timed=False):
         prios = ([None] + list(range(7, 17))) if timed else ([None] + list(range(1, 17)))
         prio = rng.choice(prios)
         val = None if rng.random() < 0.35 else rng.randrange(nv)
-        rules.append([trg, prio, val, rng.choice([1, 1, 2])])
+        rule = [trg, prio, val, rng.choice([1, 1, 2])]
+        if not timed and rng.random() < 0.3:
+            rule.append(True)            # this monitor raises instead of commanding
+            rule[3] = rng.choice([1, 2, 3])
+        rules.append(rule)
     return rules
 
 
@@ -1290,6 +1356,17 @@ def shard(ctx, spec):
         d = rng.randrange(ci["nvals"])
         cfg = {"def": d, "pv": d, "explicit": True} if idx % 2 else {"def": 0, "pv": 0}
         lockstep(ctx, "rand-" + kind, kind, cname, cfg, gen_random(rng, ci, n, wire=(kind != "direct")))
+    elif what == "resend":
+        _, cname, idx, n = spec
+        ci = env()["classes"][cname]
+        rng = ctx.sub_rng("c17-resend/%s/%d" % (cname, idx))
+        nv = min(3, ci["nvals"])
+        prios = [None] + rng.sample(range(1, 17), 2)
+        alpha = [(p, v) for p in prios for v in list(range(nv)) + [None]]
+        # few distinct commands, many repetitions: A, B, A again ... with kept request objects
+        evs = [("w", "pv", v, None, p) for (p, v) in (rng.choice(alpha) for _ in range(n))]
+        d = rng.randrange(ci["nvals"])
+        lockstep(ctx, "resend-wireobj", "wireobj", cname, {"def": d, "pv": d, "explicit": True}, evs)
     elif what == "minonoff":
         _, cname, kind, on, off, idx, n = spec
         ci = env()["classes"][cname]
@@ -1387,6 +1464,12 @@ def run(ctx):
     check_construct(ctx)
     L = 4 if ctx.quick else 5
     LW = 3 if ctx.quick else 4
+    debug_pass = os.environ.get("VERIF_DEBUGFLAGS") in ("1", "2")
+    if debug_pass:
+        # the repetition with the library's _debug flags on (harness/core.py): every
+        # stream once more, the exhaustive ones two commands shorter (the flags make
+        # each call several times slower; depth adds nothing about tracing)
+        L, LW = 3, 2
     specs = [("corpus",)]
     seen_groups, wire_len = set(), {}
     for cname in e["names"]:
@@ -1423,6 +1506,8 @@ def run(ctx):
             specs.append(("rand", cname, "wire", i, 100))
         for i in range(1 if ctx.quick else 4):
             specs.append(("rand", cname, "e2e", i, 50 if ctx.quick else 100))
+        for i in range((1 if ci["meta"]["atomic"] else 3) if ctx.quick else 6):
+            specs.append(("resend", cname, i, 50 if ctx.quick else 100))
         for i in range(2 if ctx.quick else 8):
             specs.append(("mon", cname, "direct", i, 60 if ctx.quick else 100))
         if ci["meta"]["atomic"]:
